@@ -25,7 +25,7 @@ ASSUMPTIONS = [
     "oracle: Bayes-ball on the latent-expanded DAG, cross-checked against networkx.is_d_separator",
 ]
 BUDGET = {
-    "quick": dict(examples=120, shards=16, seconds=240, exhaustive=True, exhaustive_shards=8),
+    "quick": dict(examples=70, shards=16, seconds=240, exhaustive=True, exhaustive_shards=8),
     "thorough": dict(examples=1500, shards=16, seconds=1500, exhaustive=True, exhaustive_shards=16),
 }
 ESSENTIAL_LABELS = {"quick": ["collider-via-bidirected"], "thorough": ["collider-via-bidirected"]}
@@ -75,6 +75,15 @@ def check(case) -> Outcome:
     g = case["g"]
     graph = build_graph(g)
     graph2 = build_graph(reinsert(g))
+    from ..y0util import build_graph_incremental
+
+    try:
+        graph3 = build_graph_incremental(g)
+    except Exception as e:
+        out = Outcome(key=graph_key(g), sample=graph_sample(g))
+        out.ok = False
+        out.detail = {"kind": "query-raised-during-incremental-construction", "exc": repr(e)[:300], "graph": g}
+        return out
     oracle = SepOracle(g["nodes"], g["di"], g["bi"])
     out = Outcome(key=graph_key(g), sample=graph_sample(g))
     labels = set()
@@ -104,6 +113,8 @@ def check(case) -> Outcome:
             problem = "verdict"
         elif bool(j2) != got:
             problem = "insertion-order"
+        elif bool(are_d_separated(graph3, V(a), V(b), conditions=[V(x) for x in c])) != got:
+            problem = "verdict-depends-on-how-the-graph-object-was-built"
         elif not isinstance(j, DSeparationJudgement) or not j.is_canonical or set(j.conditions) != {V(x) for x in c} or {j.left, j.right} != {V(a), V(b)}:
             problem = "judgement-fields"
         if problem:
